@@ -100,8 +100,21 @@ func vxFindTok(salted string) int {
 
 func vxSaltID(ts *TokenStore, ctx context.Context, id string) (string, error) { return "s-" + id, nil }
 
+var vxNS1 = &namespace.Namespace{ID: "n1", Path: "n1/"}
+
 func vxNamespaceByID(c *Core, ctx context.Context, nsID string) (*namespace.Namespace, error) {
+	if nsID == "n1" {
+		return vxNS1, nil
+	}
 	return namespace.RootNamespace, nil
+}
+
+func vxCtxNS(ctx context.Context) string {
+	ns, err := namespace.FromContext(ctx)
+	if err != nil || ns == nil {
+		return namespace.RootNamespaceID
+	}
+	return ns.ID
 }
 
 func vxLookupInternal(ts *TokenStore, ctx context.Context, id string, salted, tainted bool) (*logical.TokenEntry, error) {
@@ -116,6 +129,9 @@ func vxLookupInternal(ts *TokenStore, ctx context.Context, id string, salted, ta
 	i := vxFindTok(id)
 	if i < 0 {
 		return nil, nil
+	}
+	if salted && vxW.tokens[i].NamespaceID != vxCtxNS(ctx) {
+		return nil, nil // a salted id is resolved in the token-id view of the context's namespace
 	}
 	if vxW.tokens[i].NumUses < 0 && !tainted {
 		return nil, nil
@@ -156,7 +172,7 @@ func vxRevokeByToken(m *ExpirationManager, ctx context.Context, te *logical.Toke
 }
 
 // views
-type vxView struct{ kind string }
+type vxView struct{ kind, ns string }
 
 func (v *vxView) Prefix() string                { return v.kind + "/" }
 func (v *vxView) SubView(p string) barrier.View { return &vxSubView{vxView: *v, prefix: p} }
@@ -175,11 +191,11 @@ func (v *vxView) Delete(ctx context.Context, k string) error {
 	vxTrace(v.kind + ".Delete " + k)
 	switch v.kind {
 	case "id":
-		if i := vxFindTok(k); i >= 0 {
+		if i := vxFindTok(k); i >= 0 && vxW.tokens[i].NamespaceID == v.nsOr() {
 			vxW.tokens = append(vxW.tokens[:i:i], vxW.tokens[i+1:]...)
 		}
 	case "parent":
-		vxW.parentIdx = vxDel(vxW.parentIdx, k)
+		vxW.parentIdx = vxDel(vxW.parentIdx, v.nsPfx()+k)
 	case "accessor":
 		vxW.accIdx = vxDel(vxW.accIdx, k)
 	}
@@ -191,6 +207,7 @@ func (v *vxView) List(ctx context.Context, prefix string) ([]string, error) {
 	}
 	var out []string
 	if v.kind == "parent" {
+		prefix = v.nsPfx() + prefix
 		for _, k := range vxW.parentIdx {
 			if len(k) > len(prefix) && k[:len(prefix)] == prefix {
 				out = append(out, k[len(prefix):])
@@ -200,11 +217,32 @@ func (v *vxView) List(ctx context.Context, prefix string) ([]string, error) {
 	return out, nil
 }
 
-var vxViews = map[string]*vxView{"id": {"id"}, "parent": {"parent"}, "accessor": {"accessor"}}
+func (v *vxView) nsOr() string {
+	if v.ns == "" {
+		return namespace.RootNamespaceID
+	}
+	return v.ns
+}
 
-func vxIDView(ts *TokenStore, ns *namespace.Namespace) barrier.View       { return vxViews["id"] }
-func vxParentView(ts *TokenStore, ns *namespace.Namespace) barrier.View   { return vxViews["parent"] }
-func vxAccessorView(ts *TokenStore, ns *namespace.Namespace) barrier.View { return vxViews["accessor"] }
+// parent index entries of the root namespace are stored bare (as before); other namespaces get a "<ns>|" prefix
+func (v *vxView) nsPfx() string {
+	if v.ns == "" || v.ns == namespace.RootNamespaceID {
+		return ""
+	}
+	return v.ns + "|"
+}
+
+func vxNSID(ns *namespace.Namespace) string {
+	if ns == nil {
+		return namespace.RootNamespaceID
+	}
+	return ns.ID
+}
+func vxIDView(ts *TokenStore, ns *namespace.Namespace) barrier.View     { return &vxView{kind: "id", ns: vxNSID(ns)} }
+func vxParentView(ts *TokenStore, ns *namespace.Namespace) barrier.View { return &vxView{kind: "parent", ns: vxNSID(ns)} }
+func vxAccessorView(ts *TokenStore, ns *namespace.Namespace) barrier.View {
+	return &vxView{kind: "accessor", ns: vxNSID(ns)}
+}
 
 func vxTokenStore() *TokenStore {
 	return &TokenStore{
@@ -294,6 +332,53 @@ func VxRevokeTreeWithRetry() {
 	}
 	o := vxFindTok("s-O")
 	vxAssert("tree revoke: unrelated token untouched", o >= 0 && vxW.tokens[o].NumUses == 0 && vxHas(vxW.accIdx, "s-acc-O"))
+}
+
+// tree revocation across a namespace boundary: R lives in the root namespace, its child A and grandchild B in
+// namespace n1 (created through n1/auth/token/create by a sudo token of the parent namespace); revoking R revokes
+// all three. One failure anywhere, then a retry.
+func vxAddTokenNS(id, parent, ns, parentNS string) {
+	vxW.tokens = append(vxW.tokens, &logical.TokenEntry{ID: id, Parent: parent, Accessor: "acc-" + id, NamespaceID: ns, Policies: []string{"p"}})
+	vxW.accIdx = append(vxW.accIdx, "s-acc-"+id)
+	if parent != "" {
+		// storeCommon: the index lives in the PARENT's namespace view; a child of another namespace carries its
+		// namespace id as suffix
+		k := "s-" + parent + "/s-" + id
+		if ns != namespace.RootNamespaceID {
+			k += "." + ns
+		}
+		if parentNS != namespace.RootNamespaceID {
+			k = parentNS + "|" + k
+		}
+		vxW.parentIdx = append(vxW.parentIdx, k)
+	}
+}
+
+func VxRevokeTreeAcrossNamespaces() {
+	ctx := namespace.RootContext(context.Background())
+	ts := vxTokenStore()
+	vxW = &vxWorld{failAt: -1}
+	vxAddTokenNS("R", "", "root", "root")
+	vxAddTokenNS("A", "R", "n1", "root")
+	vxAddTokenNS("B", "A", "n1", "n1")
+	vxAddTokenNS("O", "", "n1", "n1") // unrelated token in n1
+	fail := vxChoose("failing call (30 = none)", 31)
+	if fail < 30 {
+		vxW.failAt = fail
+	}
+	err := ts.revokeTreeInternal(ctx, "s-R")
+	vxW.failAt = -1
+	if err != nil {
+		vxReach("cross-namespace tree: first attempt failed")
+		err = ts.revokeTreeInternal(ctx, "s-R")
+		vxAssert("the retry, with storage healthy again, succeeds", err == nil)
+	}
+	vxReach("cross-namespace tree: reported successful")
+	for _, id := range []string{"R", "A", "B"} {
+		vxRevokedFully(id, "cross-namespace tree revoke")
+	}
+	o := vxFindTok("s-O")
+	vxAssert("cross-namespace tree revoke: unrelated token untouched", o >= 0 && vxW.tokens[o].NumUses == 0)
 }
 
 // ---- the real destroyCubbyhole: success means the token's cubbyhole storage (keyed exactly as the cubbyhole backend
